@@ -99,6 +99,10 @@ pub struct OpRecord {
     pub ret: String,
     pub try_timed: u64,
     pub ghost_fired: u64,
+    /// hash of the canonical state after the call
+    pub post_hash: u64,
+    /// description of the ghost fault that hit this call (if any)
+    pub ghost: Option<String>,
 }
 
 #[derive(Default)]
@@ -794,7 +798,30 @@ fn same_document(a: &str, b: &str) -> bool {
     };
     match (load(a), load(b)) {
         (Some(x), Some(y)) => x == y,
-        _ => false,
+        _ => {
+            // neither text loads on its own (reported separately); compare the texts with empty elements normalised
+            let norm = |t: &str| -> String {
+                let lines: Vec<&str> = t.lines().map(|l| l.trim()).collect();
+                let mut out = String::new();
+                let mut i = 0;
+                while i < lines.len() {
+                    let l = lines[i];
+                    if i + 1 < lines.len() && l.starts_with('<') && !l.starts_with("</") && l.ends_with('>') && !l.ends_with("/>") && !l.contains("</") {
+                        let name: String = l[1..].chars().take_while(|c| !c.is_whitespace() && *c != '>').collect();
+                        if lines[i + 1] == format!("</{name}>") {
+                            out.push_str(&format!("{}/>\n", &l[..l.len() - 1]));
+                            i += 2;
+                            continue;
+                        }
+                    }
+                    out.push_str(l);
+                    out.push('\n');
+                    i += 1;
+                }
+                out
+            };
+            norm(a) == norm(b)
+        }
     }
 }
 
@@ -931,7 +958,7 @@ pub fn run_history(cfg: &HistCfg) -> HistResult {
                     pre = View::build(&world);
                 }
             });
-            res.ops.push(OpRecord { label, op: Some(op.clone()), ret: String::new(), try_timed: 0, ghost_fired: 0 });
+            res.ops.push(OpRecord { label, op: Some(op.clone()), ret: String::new(), try_timed: 0, ghost_fired: 0, post_hash: 0, ghost: None });
             if ret.aborted || eng.aborting() {
                 break;
             }
@@ -986,7 +1013,7 @@ pub fn run_history(cfg: &HistCfg) -> HistResult {
                 &|m| world.tables().model_ids.get(m).map(|h| format!("M{h}")).unwrap_or("M?".into()),
             )
         });
-        res.ops.push(OpRecord { label, op: Some(op.clone()), ret: ret_canon, try_timed: tt1 - tt0, ghost_fired: gf1 - gf0 });
+        res.ops.push(OpRecord { label, op: Some(op.clone()), ret: ret_canon, try_timed: tt1 - tt0, ghost_fired: gf1 - gf0, post_hash: h, ghost: if gf1 > gf0 { run_ghost.clone() } else { None } });
 
         let mut viols: Vec<Violation> = Vec::new();
         // ---- engine findings (C12 / C15)
@@ -1067,7 +1094,8 @@ pub fn run_history(cfg: &HistCfg) -> HistResult {
                 // ---- state invariants
                 let sel = &cfg.props;
                 {
-                    let reload = sel.c10 && ((cfg.reload_every > 0 && i % cfg.reload_every == cfg.reload_every - 1) || i + 1 == n_ops);
+                    // the reload differential runs after every successful modifying call, so that a breach is attributed to the call that made it
+                    let reload = sel.c10 && cfg.reload_every > 0 && op.k.is_writer() && !ret.is_err();
                     let o = CheckOpts { check_c03: true, check_c04: true, check_c05: true, check_c10: true, c10_reload: reload, dfs_sample: if sel.c03 { 7 } else { 0 } };
                     for (_, ms) in &post.models {
                         for v in inv::check(ms, &ms.model, &o) {
@@ -1095,7 +1123,12 @@ pub fn run_history(cfg: &HistCfg) -> HistResult {
         if !foreign.is_empty() {
             *res.probes.entry("history-ended-by-violation-of-another-property".into()).or_default() += 1;
         }
-        let viols = own;
+        let mut viols = own;
+        for v in viols.iter_mut() {
+            // signatures and details are plain text (corrupted buffers may put control characters into names)
+            v.sig = v.sig.chars().map(|c| if c.is_control() { '?' } else { c }).collect();
+            v.detail = v.detail.chars().map(|c| if c.is_control() { '?' } else { c }).collect();
+        }
         let stop = !viols.is_empty() || !foreign.is_empty();
         res.violations.extend(viols);
         pre = post;
